@@ -1105,6 +1105,22 @@ func (e *Env) call(n *ast.CallExpr) Val {
 				t.assume("true", sx(">", "ALLOC0", "0"), "allocation frontier is above nil")
 			}
 			return scalar(bt, sx(">", ref, "ALLOC0"))
+		case "measure":
+			// measure(N): the value the `decreases` measure of loop N had at the
+			// head of that loop's current iteration (lets the invariant of an
+			// INNER loop say "the outer measure has already gone down")
+			e.nargs(n, 1)
+			lit, ok := n.Args[0].(*ast.BasicLit)
+			if !ok {
+				e.fail("measure(N): N must be a loop ordinal literal")
+			}
+			ord, _ := strconv.Atoi(lit.Value)
+			for _, li := range t.loops {
+				if li.ordinal == ord && li.decHead != "" {
+					return scalar(types.Typ[types.Int], li.decHead)
+				}
+			}
+			e.fail("stale identifier: measure(%d): loop %d has no decreases clause (or is not an enclosing loop)", ord, ord)
 		case "untainted":
 			// untainted(N): no insertion went into the map that loop N ranges over since its range started
 			e.nargs(n, 1)
